@@ -820,6 +820,10 @@ class Summarizer:
             return [st]
         caller = st.frames[-1]
         target = fr.ret_target
+        if isinstance(target, tuple) and target[0] == 'stop':
+            # one iteration of a closure-driven loop (for_each / fold ...) has finished
+            st.done = ('closure_ret', v, target[1])
+            return [st]
         if isinstance(target, tuple):
             # continuation installed by a model: wrap the callee's result, then resume
             _, kind, dest, target = target
